@@ -526,3 +526,35 @@ func scribbleVal(v reflect.Value, write bool, n *int, depth int) {
 		}
 	}
 }
+
+// Strings collects every string reachable from v, in traversal order. Go strings are immutable:
+// whatever happens to buffers the value was decoded from, this list may never change.
+func Strings(v any) []string {
+	var out []string
+	if v != nil {
+		stringsVal(reflect.ValueOf(v), &out, 0)
+	}
+	return out
+}
+
+func stringsVal(v reflect.Value, out *[]string, depth int) {
+	if depth > 12 {
+		return
+	}
+	switch v.Kind() {
+	case reflect.Ptr, reflect.Interface:
+		if !v.IsNil() {
+			stringsVal(v.Elem(), out, depth+1)
+		}
+	case reflect.Slice, reflect.Array:
+		for i := 0; i < v.Len(); i++ {
+			stringsVal(v.Index(i), out, depth+1)
+		}
+	case reflect.Struct:
+		for i := 0; i < v.NumField(); i++ {
+			stringsVal(v.Field(i), out, depth+1)
+		}
+	case reflect.String:
+		*out = append(*out, string(append([]byte(nil), v.String()...))) // a copy: the point is to notice if the original changes
+	}
+}
